@@ -119,7 +119,8 @@ def step (st : St) (ws : List String) : St × String :=
               | .ok o =>
                 let known := known ++ [a, b, d]
                 let seals := sortNat (o.seals.flatMap (·.2))
-                let pb := String.ofList (o.pathKeys.map fun k => if k.isSome then '1' else '0')
+                -- trailing zeros dropped (the harness prints every bit vector that way: the length is fixed by the tree size)
+                let pb := String.ofList ((o.pathKeys.map fun k => if k.isSome then '1' else '0').reverse.dropWhile (· == '0')).reverse
                 ({ t1 := t1, after := o.tree, added := added, sender := c, pathKeys := o.pathKeys, hasPath := true },
                  s!"{treeS (canon o.tree known)} added={listS (sortNat added)} seals={listS seals} pathbits={if pb.isEmpty then "-" else pb}")
       | _, _ => bad
